@@ -17,8 +17,9 @@ theorem put_fst (st : CState) (h : Nat) (c : Comp) : (st.put h c).live.map (·.1
   simp only [CState.put, List.map_map]
   apply List.map_congr_left
   intro x _
-  by_cases hx : x.1 == h
-  · simp [hx]; exact (beq_iff_eq.mp hx).symm
+  simp only [Function.comp]
+  by_cases hx : x.1 = h
+  · simp [hx]
   · simp [hx]
 
 theorem put_next (st : CState) (h : Nat) (c : Comp) : (st.put h c).next = st.next := rfl
@@ -56,7 +57,7 @@ theorem filter_wf (st : CState) (h : Nat) (hw : st.WF) :
   · have : ((st.live.filter (fun x => !(x.1 == h))).map (·.1)).Sublist (st.live.map (·.1)) :=
       (List.filter_sublist).map _
     exact this.nodup hw.1
-  · intro x hx; exact hw.2 x (List.mem_of_mem_filter hx)
+  · intro x hx; exact hw.2 x (List.mem_filter.mp hx).1
 
 /-- **every call preserves the invariant** (calls outside the contract have no successor state) -/
 theorem cstep_wf (cc : CharClass) (T : Table) (m : Key → Int) (st st' : CState) (op : COp) (o : COut)
@@ -136,14 +137,14 @@ theorem filter_length_of_nodup (l : List (Nat × Comp)) (h : Nat) (hn : (l.map (
         intro x hx he; exact hn.1 (List.mem_map.mpr ⟨x, hx, by rw [he, hy]⟩)
       have : ys.filter (fun x => !(x.1 == h)) = ys := by
         apply List.filter_eq_self.mpr; intro x hx; simp [hnone x hx]
-      simp [List.filter_cons, hy, this]
+      simp [hy, this]
     · have hm' : ∃ x ∈ ys, x.1 = h := by
         obtain ⟨x, hx, he⟩ := hm
         rcases List.mem_cons.mp hx with rfl | hx
         · exact absurd he hy
         · exact ⟨x, hx, he⟩
       have := ih hn.2 hm'
-      simp [List.filter_cons, hy]; omega
+      simp [hy]; omega
 
 /-- **`free` removes exactly one handle**, and that handle is dead afterwards -/
 theorem free_balance (cc : CharClass) (T : Table) (m : Key → Int) (st st' : CState) (hh : Nat) (o : COut)
